@@ -1,14 +1,31 @@
 # Unit `join`: the sequential join machinery against a trait-level Join contract (C06, reduced)
+import importlib.util, os
 from vx.unit import Unit, E
+
+_here = os.path.dirname(os.path.abspath(__file__))
+_s = importlib.util.spec_from_file_location('unit_storage_base', os.path.join(_here, '..', 'storage', 'unit.py'))
+_storage = importlib.util.module_from_spec(_s)
+_s.loader.exec_module(_storage)
 
 JM = 'src/join/mod.rs'
 LJ = 'src/join/lend_join.rs'
 
 
 def build():
-    u = Unit('join', prelude=['prelude/std_nonzero.rs', 'prelude/hibitset.rs'], spec=['join/spec.rs'], files=[JM, LJ, 'src/join/maybe.rs', 'src/join/bit_and.rs'])
+    u = _storage.build()
+    u.name = 'join'
+    u.spec = u.spec + ['join/spec.rs']
+    u.files = u.files + [JM, LJ, 'src/join/maybe.rs', 'src/join/bit_and.rs']
+    u.struct('src/world/entity.rs', ['type Entities'])
+    u.groups['trait_join'] = dict(header='unsafe trait Join: Sized', pre='join/trait_join.rs')
+    u.groups['trait_lend_join'] = dict(header='unsafe trait LendJoin: Sized', pre='join/trait_lend_join.rs')
+    u.fn(JM, ['trait Join', 'fn is_unconstrained'], ret='r', props='C06', group='trait_join', key='Join::is_unconstrained(default)')
+    # Join::join / LendJoin::lend_join defaults (one-line `JoinIter::new(self)`) cannot sit in the trait: Verus rejects the
+    # trait -> JoinIter<J: Join> -> trait cycle in specifications; JoinIter::new itself is under contract.
+    u.fn(LJ, ['trait LendJoin', 'fn is_unconstrained'], ret='r', props='C06', group='trait_lend_join', key='LendJoin::is_unconstrained(default)')
     u.struct(JM, ['struct JoinIter'])
     u.fn(JM, ['impl<J: Join> JoinIter<J>', 'fn new'], ret='r', props='C06 C20', key='JoinIter::new',
+         requires=[E('open_pre', 'j.open_pre()')],
          ensures=[E('keys', 'r.keys.rem() == sorted_seq(j.jmask()) && r.keys.set_view() == j.jmask()'),
                   E('wf', 'r.wf()')],
          hints=[('start', None, 'broadcast use axiom_sorted_seq;'),
@@ -22,35 +39,78 @@ def build():
                   E('advance', 'old(self).keys.rem().len() > 0 ==> final(self).keys.rem() == old(self).keys.rem().drop_first()'),
                   E('mask', 'final(self).keys.set_view() == old(self).keys.set_view()')])
     # ---- lending iterator
-    EN = 'src/world/entity.rs'
-    u.struct(EN, ['struct Generation'], derive='Clone, Copy, PartialEq, Eq, Structural')
-    u.struct(EN, ['struct Entity'], derive='Clone, Copy, PartialEq, Eq, Structural')
-    u.fn(EN, ['impl Entity', 'fn id'], ret='r', props='C06', ensures=[E('val', 'r == self.0')])
     u.struct(LJ, ['struct JoinLendIter'])
     LT = [('N8', r"LendJoinType<'_, J>", 'J::Type')]
     LI = 'impl<J: LendJoin> JoinLendIter<J>'
     u.fn(LJ, [LI, 'fn new'], ret='r', props='C06 C20', key='JoinLendIter::new', nth=None,
-         ensures=[E('keys', 'r.keys.rem() == sorted_seq(j.jmask()) && r.keys.set_view() == j.jmask()'), E('wf', 'r.wf()')],
+         requires=[E('open_pre', 'j.open_pre()')],
+         ensures=[E('keys', 'r.keys.rem() == sorted_seq(j.jmask()) && r.keys.set_view() == j.jmask()'), E('wf', 'r.wf()'), E('wf_all', 'r.wf_all()')],
          hints=[('start', None, 'broadcast use axiom_sorted_seq;'),
-                ('before_tail', None, 'proof { let s = sorted_seq(j.jmask()); assert forall|k: int| 0 <= k < s.len() implies j.jmask().contains(#[trigger] s[k]) by { assert(s.contains(s[k])); } }')])
+                ('before_tail', None, 'proof { let s = sorted_seq(j.jmask()); assert forall|k: int| 0 <= k < s.len() implies J::get_pre(&values, #[trigger] s[k]) by { assert(s.contains(s[k])); } }')])
     u.fn(LJ, [LI, 'fn next'], ret='r', props='C06 C20', key='JoinLendIter::next', rules=LT, n4c=True,
          requires=[E('wf', 'old(self).wf()')],
          ensures=[E('wf', 'final(self).wf()'),
+                  E('wf_all', 'old(self).wf_all() && repeatable::<J>() ==> final(self).wf_all()'),
                   E('end', 'old(self).keys.rem().len() == 0 ==> r is None'),
                   E('item', 'old(self).keys.rem().len() > 0 ==> r is Some && J::get_post(&old(self).values, old(self).keys.rem()[0], &r.unwrap(), &final(self).values)'),
                   E('advance', 'old(self).keys.rem().len() > 0 ==> final(self).keys.rem() == old(self).keys.rem().drop_first()'),
                   E('mask', 'final(self).keys.set_view() == old(self).keys.set_view()')])
     u.fn(LJ, [LI, 'fn get'], ret='r', props='C03 C06', key='JoinLendIter::get', rules=LT,
-         requires=[E('wf', 'old(self).wf()')],
-         ensures=[E('wf', 'final(self).wf()'),
-                  E('stale', '!entities.alive_spec(entity) ==> r is None', 'C03'),
-                  E('rule', 'r is Some <==> (old(self).keys.set_view().contains(entity.0) && entities.alive_spec(entity))', 'C06 C03'),
+         hints=[('start', None, 'proof { assert forall|ov: &J::Value, id: Index, r: &J::Type, nv: &J::Value| J::get_pre(ov, id) && #[trigger] J::get_post(ov, id, r, nv) implies J::get_pre(nv, id) by { J::lemma_repeat(ov, id, r, nv); } }')],
+         requires=[E('wf_all', 'old(self).wf_all()'), E('ents', 'ent_ok(*entities)')],
+         ensures=[E('wf_all', 'final(self).wf_all()'),
+                  E('stale', '!live(*entities, entity) ==> r is None', 'C03'),
+                  E('rule', 'r is Some <==> (old(self).keys.set_view().contains(entity.0) && live(*entities, entity))', 'C06 C03'),
                   E('item', 'r is Some ==> J::get_post(&old(self).values, entity.0, &r.unwrap(), &final(self).values)'),
                   E('keys', 'final(self).keys == old(self).keys')])
     u.fn(LJ, [LI, 'fn get_unchecked'], ret='r', props='C06', key='JoinLendIter::get_unchecked', rules=LT,
-         requires=[E('wf', 'old(self).wf()')],
-         ensures=[E('wf', 'final(self).wf()'),
+         hints=[('start', None, 'proof { assert forall|ov: &J::Value, id: Index, r: &J::Type, nv: &J::Value| J::get_pre(ov, id) && #[trigger] J::get_post(ov, id, r, nv) implies J::get_pre(nv, id) by { J::lemma_repeat(ov, id, r, nv); } }')],
+         requires=[E('wf_all', 'old(self).wf_all()')],
+         ensures=[E('wf_all', 'final(self).wf_all()'),
                   E('rule', 'r is Some <==> old(self).keys.set_view().contains(index)'),
                   E('item', 'r is Some ==> J::get_post(&old(self).values, index, &r.unwrap(), &final(self).values)'),
                   E('keys', 'final(self).keys == old(self).keys')])
+    # ---- members: REAL trait impls, each checked by Verus against the trait-level contract
+    SM = 'src/storage/mod.rs'
+    def member(gname, header, pre_file, file, path_hdr, trait, fns=('open', 'get'), rules=(), props='C06', subst=None):
+        pre = open(os.path.join(_here, 'members', pre_file)).read().replace('JOINTRAIT', trait)
+        u.groups[gname] = dict(header=header, pre=pre, private=False)
+        tl = 'trait.' + ('lend_' if trait == 'LendJoin' else '')
+        for f in fns:
+            labels = [('mask', props), ('pre', props)] if f == 'open' else [('item', props), ('keeps', props)]
+            extra = {}
+            if gname.endswith('_entities') and f == 'get':
+                extra = dict(closures={'|gen|': dict(params='gen: Generation', ret='r__: Generation',
+                                                     requires=[('range', 'gen.0@ != 0 && gen.0@ > i32::MIN + 1')],
+                                                     ensures=[('val', 'r__.0@ == (if gen.0@ > 0 { gen.0@ as int } else { 1 - gen.0@ })')])},
+                             hints=[('start', None, 'proof { lemma_gid_facts(&v.alloc, id); }')])
+            u.fn(file, [path_hdr, 'fn ' + f], props=props, group=gname, key='%s::%s' % (gname, f), rules=list(rules), **extra,
+                 hint_obligations=[E('%s%s.%s' % (tl, f, l), 'inherited postcondition of %s::%s (%s)' % (trait, f, l), p) for (l, p) in labels])
+    for trait in ('Join', 'LendJoin'):
+        t = 'j' if trait == 'Join' else 'lj'
+        member('%s_storage_ref' % t, "unsafe impl<'a, 'e, 'd, T> %s for &'a Storage<'e, T, &'d MaskedStorage<T>> where T: Component," % trait,
+               'storage_ref.rs', SM, "impl<'a, 'e, T, D> %s for &'a Storage<'e, T, D>" % trait, trait)
+        member('%s_anti' % t, "unsafe impl<'a> %s for AntiStorage<'a>" % trait, 'anti.rs', SM, "impl<'a> %s for AntiStorage<'a>" % trait, trait,
+               rules=[('N9', r'\(_: &mut \(\), _: Index\)', '(_v: &mut (), _i: Index)'), ('N9', r"\(_: &'next mut \(\), _: Index\)", "(_v: &'next mut (), _i: Index)")])
+        member('%s_drain' % t, "unsafe impl<'a, T> %s for Drain<'a, T> where T: Component," % trait, 'drain.rs', 'src/storage/drain.rs', "impl<'a, T> %s for Drain<'a, T>" % trait, trait)
+    u.struct(SM, ['struct AntiStorage'])
+    # MaybeJoin: N15 = the irrefutable tuple pattern in parameter position is unfolded into two field borrows
+    MB = 'src/join/maybe.rs'
+    u.struct(MB, ['struct MaybeJoin'])
+    N15 = [('N15', r"\(mask, value\): &mut Self::Value, id: Index\) -> Self::Type \{", "v__: &mut Self::Value, id: Index) -> Self::Type { let mask = &v__.0; let value = &mut v__.1;"),
+           ('N15', r"\(mask, value\): &'next mut Self::Value, id: Index\) -> Self::Type<'next> \{", "v__: &'next mut Self::Value, id: Index) -> Self::Type { let mask = &v__.0; let value = &mut v__.1;")]
+    for trait in ('Join', 'LendJoin'):
+        t = 'j' if trait == 'Join' else 'lj'
+        member('%s_maybe' % t, "unsafe impl<T> %s for MaybeJoin<T> where T: %s," % (trait, trait), 'maybe.rs', MB, "impl<T> %s for MaybeJoin<T>" % trait, trait,
+               fns=('open', 'get', 'is_unconstrained'), rules=N15)
+    EF = 'src/world/entity.rs'
+    for trait in ('Join', 'LendJoin'):
+        t = 'j' if trait == 'Join' else 'lj'
+        member('%s_entities' % t, "unsafe impl<'a> %s for &'a EntitiesRes" % trait, 'entities.rs', EF, "impl<'a> %s for &'a EntitiesRes" % trait, trait,
+               props='C02 C06', rules=[_storage._alloc.GEN_ONE_CLOSURE])
+    # BitAnd for a one-element tuple (the other arities are macro-generated: not under contract)
+    BA = 'src/join/bit_and.rs'
+    u.groups['bitand_1'] = dict(header='impl<A> BitAnd for (A,) where A: BitSetLike,', pre='    type Value = A;\n    spec fn and_view(&self) -> Set<u32> { self.0.bview() }\n', private=False)
+    u.fn(BA, ['impl<A> BitAnd for (A,)', 'fn and'], props='C06', group='bitand_1', key='BitAnd(A,)::and',
+         hint_obligations=[E('trait.and.view', 'the combined mask of a one-member join is the member mask', 'C06')])
     return u
